@@ -1,20 +1,143 @@
 HOOK_COMMITS = ['eae2285']
 NOT_APPLICABLE = {}
-NOTES = ('Contract-based deductive verification of the real code: Verus on items extracted verbatim from /repo on every run '
-         '(Engine V), Verus on declaration tables extracted with syn (Engine D), Kani/CBMC harnesses compiled into the real '
-         'crate through cfg(kani) hooks (Engine K). Exit 2 = undecided (never an alarm). See DESIGN.md.')
+NOTES = ('Contract-based deductive verification of the real code. Engine V: Verus on items extracted verbatim from /repo on '
+         'every run (contracts in /verif/verus). Engine D: Verus obligations over the declarations extracted by tools/declx '
+         '(syn), under assumed derive-macro contracts. Engine K: Kani/CBMC harnesses compiled into the real crate through '
+         'cfg(kani) hooks. Exit 0 all obligations discharged; exit 1 + VIOLATION line an obligation failed; exit 2 undecided '
+         '(lost anchor, construct outside the verifier subset, timeout) — never an alarm. Three genuine defects were found and '
+         'repaired with fix: commits in /repo (f3eb05b, da42d3a, e13e3b9); one is recorded as a known finding (known_findings.txt). '
+         'See DESIGN.md.')
 ENGINES = [
-    {'name': 'V', 'path': '/verif/lib/verus_engine.py', 'serves_properties': ['C01', 'C05', 'C11', 'C18'],
-     'kind_free_text': 'Verus 0.2026.09.13 single-file verification of functions cut verbatim from /repo/src (and enums cut from pinned dependencies) with contracts from /verif/verus'},
-    {'name': 'K', 'path': '/verif/lib/kani_engine.py', 'serves_properties': ['C11'],
-     'kind_free_text': 'Kani 0.68 / CBMC 6.11 harnesses (assume-pre / assert-post contracts, function contracts) on the real crate built from /repo'},
+    {'name': 'V', 'path': '/verif/lib/verus_engine.py',
+     'serves_properties': ['C01', 'C04', 'C05', 'C07', 'C08', 'C09', 'C10', 'C11', 'C18'],
+     'kind_free_text': 'Verus 0.2026.09.13 single-file deductive verification of functions cut verbatim from /repo/src (and enums '
+                       'cut from pinned dependencies); contracts (spec functions, *SpecImpl blocks, injected ensures, ghost state, lemmas) in /verif/verus'},
+    {'name': 'D', 'path': '/verif/lib/decl_engine.py',
+     'serves_properties': ['C01', 'C02', 'C03', 'C04', 'C05', 'C06', 'C12', 'C15', 'C16'],
+     'kind_free_text': 'declaration contracts: tools/declx (syn) dumps the struct/enum declarations, the engine evaluates cfg for the 8 '
+                       'feature configurations and generates one named Verus obligation per wire row / key pair / configuration pair '
+                       'against /verif/spec/wire_tables.json'},
+    {'name': 'K', 'path': '/verif/lib/kani_engine.py',
+     'serves_properties': ['C01', 'C02', 'C03', 'C04', 'C05', 'C06', 'C07', 'C08', 'C10', 'C11', 'C12', 'C13', 'C14', 'C15', 'C17', 'C18', 'C19'],
+     'kind_free_text': 'Kani 0.68 / CBMC 6.11 harnesses (assume-pre / assert-post contracts, proof_for_contract, contract-as-stub) on the '
+                       'real crate built from /repo with cfg(kani); counterexamples replayed with cargo kani playback'},
 ]
+
+_D = ' Engine D rows are proofs under the assumed derive-macro contracts A1-A5 (validated boundedly by the gc_k_* harnesses).'
+
 CHECKS = {
+ 'C01': {
+  'engine': 'V+D+K', 'design_ref': 'DESIGN.md §5 C01, §10',
+  'technique': 'Verus proof of the command switch of Request::deserialize; Verus-discharged declaration obligations (key, optionality, type, lossy markers) for all 8 feature configurations; bounded Kani validation of the derive contracts',
+  'text': 'For every message the command switch is proved (Verus, unbounded) to hand exactly data[1..] to the decoder of the right command and wrap its result in the same-named variant. That each parameter is decoded under its specification key, with the right optionality and type, is proved per member and per feature configuration on the declarations that generate the decoders. Tests cannot reach all subsets/configurations; this does, at the price of assuming the derive macros\' contracts.',
+  'note': 'cbor_deserialize uninterpreted (A8); serde-indexed / serde_derive / heapless semantics assumed (A1, A2, A4, A5); spec tables hand-transcribed (AS).' + _D,
+ },
+ 'C02': {
+  'engine': 'D+K', 'design_ref': 'DESIGN.md §5 C02',
+  'technique': 'Verus-discharged declaration obligations per response member (key, type, absent-never-null) in all 8 configurations; Kani contract on Response::serialize for small capacities against a reference CBOR encoder',
+  'text': 'Per member of every response struct and nested map, in every feature configuration: emitted under its specification key, Option members skipped with Option::is_none (absent, never null), plain members always emitted, string enums emitted as their spelling, attestation statements untagged. The glue (status byte, [A0] collapse, GetNextAssertion arm) is checked by Kani on the real Response::serialize for small N (bounded).',
+  'note': 'derive contracts A1-A3, A5 assumed; cbor-smol scalar heads checked (A6), COSE key order assumed (A7); byte-level equality of the large responses is out of CBMC\'s reach. One known finding (capacity 1).' + _D,
+ },
+ 'C03': {
+  'engine': 'D+K', 'design_ref': 'DESIGN.md §5 C03, §7',
+  'technique': 'Verus proof of canon_lt(key_i, key_j) for every pair of members of every serialised map in every configuration (inductive lemma); loop-free Kani proofs that cbor-smol emits shortest-form heads for all integers',
+  'text': 'Key order is decided exactly as the property quantifies it: every pair of members, every map type, all 8 configurations (this is what found the two get-info-full ordering defects, now fixed). Shortest-form integers/booleans are proved for all u64/i64/i32/u8/usize values on the real cbor-smol serializer; string heads for lengths 0..=30 (thorough: 255/256).',
+  'note': 'definite lengths / no tags / no floats of derived code rest on A3; COSE key member order A7 assumed.' + _D,
+ },
+ 'C04': {
+  'engine': 'V+D+K', 'design_ref': 'DESIGN.md §5 C04, §8',
+  'technique': 'mechanical inventory of panic/UB/overflow sites in the repo\'s decode path, each covered by a discharged Verus or Kani contract; dependency decoders assumed (A8)',
+  'text': 'Not decided as quantified (symbolic bytes through the whole CBOR decoder are out of reach for CBMC and Verus cannot see cbor-smol). Decided: every site in /repo\'s own decode-path code that could panic, index out of bounds, overflow or violate an unsafe precondition is under a discharged contract (this found the icon panic, now fixed); a new site makes the check undecided.',
+  'note': 'cbor-smol de.rs, serde-generated visitors, heapless Deserialize impls: no panic + termination assumed (A8); determinism and termination not separately verified.',
+ },
+ 'C05': {
+  'engine': 'V+D+K', 'design_ref': 'DESIGN.md §5 C05',
+  'technique': 'Verus proof of From<CtapMappingError> for Error and of Request::deserialize against the three-code decision table; declaration obligations required<=>spec for every request member',
+  'text': 'Unbounded proof that every rejected request reports 0x01, 0x12 or 0x14 by the fault table (all cbor_smol::Error variants, enum cut from the pinned dependency each run), that empty / unassigned / unsupported inputs give the stated code whatever follows, and that a parameter is required by the decoder exactly when the specification requires it.',
+  'note': 'which cbor-smol error a malformed payload produces is the assumed contract A8 (validated on nine concrete fault messages by gc_k_large_blobs_request_faults).' + _D,
+ },
+ 'C06': {
+  'engine': 'D+K', 'design_ref': 'DESIGN.md §5 C06',
+  'technique': 'Verus-discharged declaration obligations (plain derived Deserialize, no deny_unknown_fields/flatten/untagged, text-keyed) for the seven extensible maps; bounded Kani run of the real skipper',
+  'text': 'Proof of the repo-side precondition: unknown keys of the seven host maps are routed to the skipper. The skipper (cbor-smol ignore) consuming exactly one item of any shape is assumed (A9) and exercised on six value shapes at three positions.',
+  'note': 'A2, A9 assumed; nesting depth / size of unknown values not explored (symbolic CBOR through cbor-smol is infeasible).' + _D,
+ },
+ 'C07': {
+  'engine': 'V+K', 'design_ref': 'DESIGN.md §5 C07, §10',
+  'technique': 'Verus proof of AuthenticatorData::serialize and both SerializeAttestedCredentialData impls (verbatim) against the WebAuthn layout for all lengths; Kani on the real heapless code for small sizes',
+  'text': 'Unbounded in every length (credential id incl. 65535/65536, public key, extensions), hash, flag set and counter: output == rpIdHash||flags||signCount(BE)||[aaguid||len(BE16)||id||key]||[ext]; Ok iff it fits 676 bytes and the id length fits 16 bits; never shortened. Flag bit positions proved on the real bitflags type.',
+  'note': 'heapless-bytes push/extend_from_slice contracts assumed (inc/heapless_contract.rs) and validated on small sizes by Kani; the extension map encoding is uninterpreted here (C02/C03 cover it).',
+ },
+ 'C08': {
+  'engine': 'K+V', 'design_ref': 'DESIGN.md §5 C08',
+  'technique': 'loop-free Kani contract harness over every APDU up to 400 bytes (thorough: 65600 = the whole ISO 7816 domain) parsed by the real CommandView::try_from; pointer-identity postconditions',
+  'text': 'Complete proof for the stated APDU size: the decision table of the property (class first, Version shortcut, Register iff 64 bytes, Authenticate iff P1 in {3,7,8} and 65+data[64] bytes, errors otherwise) with borrowed outputs identical (by address) to the input window; iso7816 framing is checked, not assumed. ControlByte table proved by Verus.',
+  'note': 'CBMC bit-precise semantics; 64-bit usize.',
+ },
+ 'C09': {
+  'engine': 'V', 'design_ref': 'DESIGN.md §5 C09, §10',
+  'technique': 'Verus proof of ctap1::Response::serialize (verbatim) against the U2F raw message layout for every capacity S, pre-fill and part length',
+  'text': 'Unbounded: prefix never disturbed; Ok iff the message fits; on Ok the appended bytes are exactly header||key||len||handle||cert||sig / presence||counter(BE)||sig / the six version bytes and the appended length is the sum of the parts.',
+  'note': 'heapless Vec push/extend_from_slice contracts assumed; u32::to_be_bytes via a trusted wrapper (Verus cannot attach a spec to it).',
+ },
+ 'C10': {
+  'engine': 'V+K', 'design_ref': 'DESIGN.md §5 C10, §10',
+  'technique': 'Verus proof of the default methods call_ctap2 / call_ctap1 and both blanket Rpc::call impls (verbatim) with a ghost call log and arbitrary handler outcome functions',
+  'text': 'Unbounded over all authenticators (arbitrary outcome functions), request variants, vendor codes and payloads: exactly one handler call, of the right command, receiving the request\'s own parameters; result wrapped in the same-named variant or error unchanged; GetInfo / Version infallible; default large_blobs answers InvalidCommand and calls nothing; Rpc::call has the same postcondition.',
+  'note': 'core Result::inspect_err specified by assume_specification (returns its receiver); handlers modelled as deterministic functions of (state, request).',
+ },
  'C11': {
-  'engine': 'V+K',
-  'technique': 'deductive proof (Verus) of src/operation.rs and ctap2::Request::deserialize against spec tables; loop-free Kani harnesses over all 256 bytes for counterexamples',
-  'design_ref': 'DESIGN.md §5 C11',
-  'text': 'Unbounded proof for all 256 bytes and all message tails: Verus verifies the real conversion functions (extracted verbatim every run) against the CTAP 2.1 command table incl. round trip, injectivity and the exact recognised set, and verifies Request::deserialize against the decision table of the property for every message; Kani re-proves the tables exhaustively and supplies replayable counterexamples.',
-  'note': 'cbor_deserialize is an uninterpreted function (only reached for parameter-bearing commands); vstd specs of slice::split_first / Option::ok_or trusted; extraction applies three stated desugarings to Request::deserialize (reference pattern, map_err+? unfolding).',
+  'engine': 'V+K', 'design_ref': 'DESIGN.md §5 C11',
+  'technique': 'Verus proof of src/operation.rs (whole file, verbatim) and of Request::deserialize against the CTAP 2.1 command table; loop-free Kani harnesses over all 256 bytes for counterexamples',
+  'text': 'Unbounded proof for all 256 bytes and all message tails: tables both ways, round trip, injectivity, exact recognised set, vendor range 0x42..=0x7F; parameter-less commands decode from their byte alone, 0x41 == 0x0A, unsupported/unassigned bytes => InvalidCommand whatever follows.',
+  'note': 'cbor_deserialize uninterpreted (only reached for parameter-bearing commands); vstd specs of slice::split_first / Option::ok_or trusted; three stated desugarings applied to Request::deserialize.',
+ },
+ 'C12': {
+  'engine': 'D+K', 'design_ref': 'DESIGN.md §5 C12',
+  'technique': 'Verus-discharged declaration obligations: capacity / integer width of every bounded member against the limit table, sizes.rs constants per configuration; bounded Kani probe at N / N+1',
+  'text': 'Every bounded request member has exactly the declared capacity or integer type in every feature configuration. That the containers accept exactly <= N, reject N+1 and copy verbatim is the assumed contract A4, probed on the real code at 32/33 bytes.',
+  'note': 'A4, A5 assumed; accepted values "delivered whole" for borrowed members follows from zero-copy decoding (A8).' + _D,
+ },
+ 'C13': {
+  'engine': 'K', 'design_ref': 'DESIGN.md §5 C13',
+  'technique': 'Kani function contract on floor_char_boundary (proof_for_contract), truncate proved against that contract, icon helpers through a serde value deserializer; bounded in the string length',
+  'text': 'Bounded contract checking: floor_char_boundary == longest boundary prefix (no UB at unwrap_unchecked) for all valid UTF-8 strings <= 6 bytes (thorough 8) and, under the window precondition, <= 300 bytes with every index; truncate::<L> for L in {1,2,3,4,64}; user icon kept verbatim <= 128 bytes and dropped beyond (this found the icon panic, fixed); rp icon discarded.',
+  'note': 'string length bounded (stated per harness); rejection of ill-formed UTF-8 is cbor-smol\'s from_utf8 (A8); A12 for the window variant.',
+ },
+ 'C14': {
+  'engine': 'K', 'design_ref': 'DESIGN.md §5 C14',
+  'technique': 'Kani contract harnesses: TryFrom for known parameters over all i32; the two filtering visit_seq loops driven through the real Deserialize impls by a mock SeqAccess with symbolic entries',
+  'text': 'Known-parameter conversion complete over all algorithms and type strings up to 12 bytes. Filtering loops: for every list of up to 3 (thorough 6 / 5) symbolic entries the result is the first two known entries in order, the unknown flag is exact, decoding never fails. Bounded in list length.',
+  'note': 'element decoders are the real derived ones; cbor-smol sequence framing not in the loop (A8).',
+ },
+ 'C15': {
+  'engine': 'D+K', 'design_ref': 'DESIGN.md §5 C15',
+  'technique': 'Verus-discharged declaration obligations (both derives from one declaration, no one-directional attributes, optionality agreement, repr discriminants) + C03 order obligations; Kani round trips on string enums and two small structs',
+  'text': 'Both directions are generated from the same declaration, so encode and decode tables coincide (under A1-A4); canonical re-encoding follows from the C03 order obligations; string enumerations round-trip for all strings up to 20 bytes (Kani, complete).',
+  'note': 'derive contracts assumed; value-level round trip of large types not executed symbolically.' + _D,
+ },
+ 'C16': {
+  'engine': 'D', 'design_ref': 'DESIGN.md §5 C16',
+  'technique': 'Verus-discharged obligations over every pair of distinct effective wire tables among the 8 feature configurations',
+  'text': 'For every struct and every pair of configurations: common members have identical rows in the same relative order; configuration-only members are feature-only per the specification; constants other than LARGE_BLOB_MAX_FRAGMENT_LENGTH do not vary; std/arbitrary/log-* guard no member, attribute or constant.',
+  'note': 'A1-A3, A5 assumed.' + _D,
+ },
+ 'C17': {
+  'engine': 'K', 'design_ref': 'DESIGN.md §5 C17, §7',
+  'technique': 'Kani contract harnesses on the real Response::serialize::<N> for a finite set of capacities, bodies crossing each N, symbolic pre-fill',
+  'text': 'Bounded: for N in {1,3,4,5,8,16} (+2,3,16 thorough) and ClientPin / LargeBlobs / parameter-less responses with symbolic members and symbolic buffer pre-fill, the buffer ends as [00]||body when it fits, else [7F]; never truncated. One known finding (capacity 1, member-less response).',
+  'note': 'N is a const generic: finite instantiations only; large response kinds not explored (CBMC memory).',
+ },
+ 'C18': {
+  'engine': 'V+K', 'design_ref': 'DESIGN.md §5 C18',
+  'technique': 'Verus proof of the numeric tables (enums and TryFrom impls verbatim); Kani proofs of the four string tables over all strings up to 20 bytes and of the bitflags constants',
+  'text': 'Numeric identifiers (PIN sub-commands, CM sub-commands, credProtect, control bytes, 55 status codes, command bytes): exact numbers, pairwise distinct, everything else rejected — unbounded Verus proof. String identifiers: try_from(s) is Ok(v) iff s equals v\'s spelling byte for byte, for every s up to 20 bytes. Permission and flag bits on the real bitflags types.',
+  'note': 'serde_repr rejecting other numbers on the wire: A2; strings longer than 20 bytes cannot equal a <= 17 byte constant (A11).',
+ },
+ 'C19': {
+  'engine': 'K', 'design_ref': 'DESIGN.md §5 C19',
+  'technique': 'Kani contract harnesses on the private generator helpers with the arbitrary feature, bounded input length',
+  'text': 'Bounded: for every input of up to 16 bytes the helpers return NotEnoughData or a value within capacity, text is valid UTF-8 at the from_utf8_unchecked site, the pointer cast yields readable bytes, no unwrap fires; CTAP1 request generator for inputs up to 68 bytes (thorough).',
+  'note': 'whole ctap2::Request generation not explored (type too large for CBMC); input length bounded.',
  },
 }
